@@ -525,7 +525,7 @@ def clause_d(facts, rep):
 
 
 def run(rep, tier):
-    configs = [('K1', ('::avx2::',))] if tier == 'quick' else [('K1', ('::avx2::',)), ('K3', ('::sse::',)), ('K4', ('::avx2::', '::sse::'))]
+    configs = [('K1', ('::avx2::',)), ('K3', ('::sse::',))] if tier == 'quick' else [('K1', ('::avx2::',)), ('K3', ('::sse::',)), ('K4', ('::avx2::', '::sse::'))]
     for cfg, ns in configs:
         facts = get_facts(cfg)
         rep.unit(facts)
